@@ -1226,7 +1226,7 @@ PROPS = {
     "C11": dict(module="FV.Props.C11", theorems=["FV.Props.C11_vec_step_refines", "FV.Props.C11_history", "FV.Props.C11_valid_gives_invariant", "FV.Props.C11_str_push", "FV.Utf8Ok.append"], suites=["ops"], proj=proj_C11, oracle=oracle_C11),
     "C12": dict(module="FV.Props.C12Push", theorems=["FV.Props.C12_valid_iff_sequence", "FV.Props.C12_truncate", "FV.Props.C12_pop", "FV.Props.C12_push", "FV.Props.C12_pushed_item_content", "FV.Props.C12_history", "FV.Props.C12_push_accepts_iff", "FV.Props.C12_item_edit", "FV.Props.C12_truncate_noop", "FV.Chain.edit", "FV.Props.C12_len_is_empty"], suites=["ops"], proj=proj_C12, oracle=oracle_C12, post=post_witness("C12")),
     "C13": dict(module="FV.Props.C13", theorems=["FV.Props.C13_vec_refused_unchanged", "FV.Props.C13_flex_push_refused_unchanged", "FV.Props.C13_flex_push_refused_size", "FV.flexPush_refused_size", "FV.Props.C13_vec_any_refusal_unchanged", "FV.Props.C13_flex_pop_empty_unchanged", "FV.Props.C13_any_refusal_unchanged"], suites=["ops"], proj=proj_C13, oracle=oracle_C13),
-    "C14": dict(module="FV.Props.C14", theorems=["FV.Props.C14_write_frame", "FV.Props.C14_item_edit_frame", "FV.Props.C14_emplace_inside", "FV.Props.C14_assign_frame", "FV.Props.C14_truncate_frame", "FV.Props.C14_field_write_frame", "FV.Props.posList_disjoint", "FV.Props.C14_setField_frame", "FV.Props.C14_vec_op_keeps_length", "FV.Props.C14_last_field_frame"], suites=["emplace", "ops"], proj=proj_C14, oracle=oracle_C14),
+    "C14": dict(module="FV.Props.C14", theorems=["FV.Props.C14_write_frame", "FV.Props.C14_item_edit_frame", "FV.Props.C14_emplace_inside", "FV.Props.C14_assign_frame", "FV.Props.C14_truncate_frame", "FV.Props.C14_field_write_frame", "FV.Props.posList_disjoint", "FV.Props.C14_setField_frame", "FV.Props.C14_vec_op_keeps_length", "FV.Props.C14_last_field_frame", "FV.Props.C14_last_variant_field_frame"], suites=["emplace", "ops"], proj=proj_C14, oracle=oracle_C14),
     "C07": dict(module="FV.Props.C07", theorems=["FV.Props.C07_sender_delivers", "FV.Props.C07_receiver_delivers", "FV.Props.C07_receiver_delivers_anywhere", "FV.Props.C07_emplaced_is_deliverable", "FV.Props.C07_sent_content_arrives", "FV.Props.C07_edited_flex_is_deliverable", "FV.Props.C07_retain_returns_same", "FV.Ty.addrIndep"], suites=["io"], proj=proj_C07, oracle=oracle_io_basic, post=post_io("C07")),
     "C08": dict(module="FV.Props.C08", theorems=["FV.Props.C08_sender_refines_blocking", "FV.Props.C08_receiver_refines_blocking", "FV.Props.C08_pipe_fifo", "FV.Props.C08_pipe_fair_delivers", "FV.Props.C08_async_receiver_delivers"], suites=["aio"], proj=proj_C08, oracle=oracle_io_basic, post=post_io("C08")),
     "C09": dict(module="FV.Props.C09", theorems=["FV.Props.C09_send_fault", "FV.Props.C09_session_sink_shape", "FV.Props.C09_read_error_keeps_bytes", "FV.Props.C09_receiver_retries_deliver", "FV.Props.C09_send_error_is_first_failure", "FV.Props.C09_send_kind_blind", "FV.Props.C09_async_poll_kind_blind", "FV.Props.C09_recv_error_is_pipes_error", "FV.Props.C09_recv_kind_blind", "FV.Props.C09_session_faults_surface", "FV.Props.C09_async_send_fault", "FV.Props.C09_async_session_sink_shape"], suites=["io", "aio"], proj=proj_C09, oracle=oracle_io_basic, post=post_io("C09")),
